@@ -173,7 +173,16 @@ fn gen_adjust_x_for_upper_boundary(
     upper_boundary: &Boundary,
 ) -> TokenStream {
     if upper_boundary.is_inclusive {
-        quote! { x }
+        // `lower + from0to1 * range` may exceed the upper boundary by a rounding error,
+        // because `range` itself is a rounded difference.
+        let upper_value = &upper_boundary.value;
+        quote! {
+            if x > #upper_value {
+                #upper_value
+            } else {
+                x
+            }
+        }
     } else {
         let upper_value = &upper_boundary.value;
         let correction_delta = correction_delta_for_float_type(float_type);
